@@ -235,6 +235,16 @@ class Gen(object):
       return ['UpdateRecord', tid, ids[0], {c: v[0] for c, v in vals.items()}]
     return ['BulkUpdateRecord', tid, ids, vals]
 
+  def ua_replace_data(self, view, tid):
+    r = self.rng
+    if view.tables[tid]["summary"]:
+      return None
+    dcols = view.data_cols(tid)
+    n = r.randint(0, 3)
+    ids = sorted(r.sample(range(1, 8), n))
+    vals = {c: [self.value(view.tables[tid]["cols"][c][1], view) for _ in ids] for c in dcols}
+    return ['ReplaceTableData', tid, ids, vals]
+
   def ua_remove_records(self, view, tid):
     r = self.rng
     rows = view.tables[tid]["rows"]
@@ -607,14 +617,14 @@ PROFILES = {
   "twoway": {"add_records": 14, "update_records": 6, "update_refs": 25, "remove_records": 12,
              "add_ref_column": 8, "add_reverse": 12, "switch_ref_type": 8, "remove_column": 4,
              "rename_column": 3, "add_table": 3, "remove_table": 1},
-  "refs": {"add_records": 18, "update_records": 8, "update_refs": 22, "remove_records": 22,
+  "refs": {"replace_data": 3, "add_records": 18, "update_records": 8, "update_refs": 22, "remove_records": 22,
            "add_ref_column": 10, "add_column": 5, "modify_column": 4, "remove_table": 2, "add_table": 4,
            "rename_choices": 4},
   "general": {"add_records": 20, "update_records": 20, "remove_records": 8, "add_column": 10,
               "remove_column": 4, "rename_column": 5, "modify_column": 8, "rename_table": 2,
               "remove_table": 1, "add_table": 3, "meta_label": 2},
   "records": {"add_records": 35, "update_records": 35, "remove_records": 15, "add_column": 5,
-              "modify_column": 3, "add_table": 2},
+              "modify_column": 3, "add_table": 2, "replace_data": 4},
   "schema": {"add_records": 10, "update_records": 10, "remove_records": 4, "add_column": 15,
              "remove_column": 10, "rename_column": 12, "modify_column": 18, "rename_table": 6,
              "remove_table": 3, "add_table": 6, "meta_label": 6},
